@@ -298,6 +298,7 @@ func (ex *Explorer) merge(r *PathResult) {
 // ---------- Machine: state of one path ----------
 
 type Machine struct {
+	race raceState
 	fmtDigits bool // fork on the digit count of symbolic integers rendered by fmt
 	eng       *Engine
 	cfg       Config
@@ -418,6 +419,8 @@ func runPath(eng *Engine, cfg Config, fn *ssa.Function, prefix []Decision, solve
 		harnessName: cfg.Harness,
 	}
 	m.pool = newPoolModel()
+	m.raceInit()
+	m.race.on = cfg.Params["norace"] != 1
 	m.seq = seq
 	m.tf.Raw = cfg.Raw || cfg.Params["raw"] == 1
 	if m.maxSteps == 0 {
@@ -428,6 +431,14 @@ func runPath(eng *Engine, cfg Config, fn *ssa.Function, prefix []Decision, solve
 	}
 	res = m.res
 	end, msg := m.runMain(fn)
+	if m.race.checked > 0 {
+		m.res.Stubs["race detector: loads/stores made while several goroutines exist, checked against happens-before"] += m.race.checked
+	}
+	if len(m.race.reports) > 0 && end != "infeasible" && end != "assume" {
+		if model, smodel, ok := m.pathModel(); ok {
+			m.recordViolation(nil, cfg.Harness+".race", "race", strings.Join(m.race.reports, "; "), model, smodel)
+		}
+	}
 	res.End, res.Msg = end, msg
 	res.Steps = m.steps
 	res.Decisions = len(m.log)
